@@ -241,6 +241,13 @@ func TestReplay(t *testing.T) {
 			}
 		}
 	}
+	if os.Getenv("VERIF_DUMP") != "" {
+		for _, l := range normalizedRun(x) {
+			if !strings.HasPrefix(l, "result ") && !strings.HasPrefix(l, "balances ") {
+				fmt.Println("  DUMP", l)
+			}
+		}
+	}
 	for k, n := range x.Known {
 		fmt.Printf("REPLAY-KNOWN %s x%d\n", k, n)
 	}
